@@ -44,6 +44,39 @@ def scenarios(ctx, n):
     return out
 
 
+def broker_scenarios(ctx, n):
+    """REAL Plugin.Start / Commit / Stop against the in-process broker: topics lists (also with a topic named twice), some
+    records acknowledged before Stop and some still unfinished"""
+    rng = ctx.rng
+    out = []
+    # directed: a topic named twice in front of another one; the later topic is acknowledged, the duplicated one is all unfinished
+    out.append(dict(run=999, name="broker-duplicated-topic", topics=["va", "va", "vb"],
+                    recs=[dict(id=1, topic="va", part=0, epoch=3, ack=False), dict(id=2, topic="va", part=0, epoch=3, ack=False),
+                          dict(id=3, topic="va", part=0, epoch=3, ack=False), dict(id=4, topic="vb", part=0, epoch=3, ack=True),
+                          dict(id=5, topic="vb", part=0, epoch=3, ack=True)]))
+    names = ["va", "vb", "vc"]
+    for k in range(n):
+        nt = rng.choice([1, 2, 3])
+        topics = names[:nt]
+        cfg_topics = list(topics)
+        if rng.random() < 0.5:      # an easy copy-paste slip in a long list; Kafka itself does not care
+            cfg_topics.insert(rng.randrange(0, len(cfg_topics)), rng.choice(topics))
+        recs = []
+        acked_prefix = {}
+        for i in range(rng.randint(2, 9)):
+            t = rng.choice(topics)
+            part = 0
+            key = (t, part)
+            # within a partition the output acknowledges a prefix (one processor): the rest is unfinished at Stop
+            stop = acked_prefix.setdefault(key, rng.random() < 0.35)
+            ack = not stop and rng.random() < 0.8
+            if not ack:
+                acked_prefix[key] = True
+            recs.append(dict(id=i + 1, topic=t, part=part, epoch=3, ack=ack))
+        out.append(dict(run=1000 + k, name="broker-%d" % k, topics=cfg_topics, recs=recs))
+    return out
+
+
 def run(ctx):
     binary = ctx.go_test_build("plugin/input/kafka")
     thorough = ctx.tier == "thorough"
@@ -89,9 +122,29 @@ def run(ctx):
     for s in scs:
         if len({(r["topic"], r["part"]) for r in s["recs"]}) < len(s["recs"]):
             shapes.add(json.dumps([[r["topic"], r["part"], r["cls"], r["delay_us"] > 0] for r in s["recs"]]))
+    # broker family: real Start / Stop
+    bsc = broker_scenarios(ctx, 24 if thorough else 6)
+    binp = os.path.join(ctx.scratch, "c10_broker_in.json")
+    bout = os.path.join(ctx.scratch, "c10_broker_trace.ndjson")
+    json.dump(bsc, open(binp, "w"))
+    rc, txt = ctx.run_bin(binary, "^TestVerifC10Broker$", env={"VERIF_CASES": binp, "VERIF_OUT": bout}, timeout=1500)
+    if rc != 0 or not os.path.exists(bout):
+        raise vlib.Infra("C10 broker harness failed rc=%s:\n%s" % (rc, txt[-3000:]))
+    mon2 = ctx.tlc("KafkaMon", "KafkaMon.cfg", workers=1, files={bout: "trace.ndjson"}, timeout=900, deadlock=False, name="KafkaMon/broker-trace")
+    rep2 = [p for p in mon2.printed if isinstance(p, dict) and "viol" in p]
+    if not mon2.ok or not rep2:
+        raise vlib.Infra("trace validation (broker family) failed:\n%s" % mon2.out[-3000:])
+    bby = {s["run"]: s for s in bsc}
+    for x in rep2[-1]["viol"]:
+        v = x["v"]
+        if v["kind"] == "not_idle":
+            ctx.drift += 1      # the consumer did not hand over every record within 20 s: inconclusive, not a verdict
+            continue
+        recs.append({"kind": v["kind"], "id": v["id"], "other": v["other"], "info": v["info"], "run": x["run"], "scenario": bby.get(x["run"])})
+    ctx.extra["broker_scenarios"] = len(bsc)
     ctx.classify(recs)
-    ctx.evaluations = len(scs) + pk["pack_checked"]
-    ctx.traces_validated = len(scs)
+    ctx.evaluations = len(scs) + len(bsc) + pk["pack_checked"]
+    ctx.traces_validated = len(scs) + len(bsc)
     ctx.nontrivial = shapes
     ctx.rule = ("scenario = records (topic, partition, offset, epoch, class, action delay) fed through the real pconsumer into a "
                 "real spread-mode pipeline; non-trivial/distinct = distinct (topic, partition, class, delayed?) sequences in "
@@ -100,5 +153,6 @@ def run(ctx):
     ctx.sample(scs[1])
     ctx.extra["trace_lines_validated"] = rep[-1]["lines"]
     ctx.assumptions += ["franz-go MarkCommitOffsets/MarkedOffsets are exercised on a real client that never connects",
-                        "Plugin.Start's broker-dependent part (NewClient ping, PollRecords loop) is not run; UseSpread/DisableStreams are applied as Start does",
+                        "the real Plugin.Start/Stop run against a tiny in-process broker (single node, single group member) in the broker family; "
+                        "the spread-mode pipeline family applies UseSpread/DisableStreams as Start does and uses a client that never connects",
                         "packing for offsets above 2^31 is compared with the spec's formulas evaluated outside TLC (32-bit integers)"]
